@@ -84,6 +84,8 @@ func doAlarm(category, message string) {
 }
 
 func update() (err error) {
+	verifPoint("update.begin")
+	defer verifPoint("update.done")
 	pikeConfig, err := config.Read()
 	if err != nil {
 		return
